@@ -1063,10 +1063,10 @@ impl BytecodeVM {
                     throw_value: None,
                 };
 
+                // Rooted here until it sits in its register (set_reg roots what a register holds)
+                let gen_guard = interp.heap.create_guard();
                 let gen_obj = super::builtins::generator::create_bytecode_generator_object(
-                    interp,
-                    &self.register_guard,
-                    state,
+                    interp, &gen_guard, state,
                 );
                 self.set_reg(return_register, JsValue::Object(gen_obj));
                 Ok(None)
@@ -1102,10 +1102,10 @@ impl BytecodeVM {
                     throw_value: None,
                 };
 
+                // Rooted here until it sits in its register (set_reg roots what a register holds)
+                let gen_guard = interp.heap.create_guard();
                 let gen_obj = super::builtins::generator::create_bytecode_generator_object(
-                    interp,
-                    &self.register_guard,
-                    state,
+                    interp, &gen_guard, state,
                 );
                 self.set_reg(return_register, JsValue::Object(gen_obj));
                 Ok(None)
@@ -1649,7 +1649,8 @@ impl BytecodeVM {
             return_value
         };
 
-        // For async calls: wrap result in a Promise
+        // For async calls: wrap result in a Promise (rooted here until it sits in its register)
+        let promise_guard = interp.heap.create_guard();
         let final_value = if frame.is_async {
             use crate::value::ExoticObject;
             // Promise assimilation: if result is already a Promise, return it directly
@@ -1660,7 +1661,7 @@ impl BytecodeVM {
                     // Wrap non-Promise value in a fulfilled Promise
                     let promise = super::builtins::promise::create_fulfilled_promise(
                         interp,
-                        &self.register_guard,
+                        &promise_guard,
                         intermediate_value,
                     );
                     JsValue::Object(promise)
@@ -1669,7 +1670,7 @@ impl BytecodeVM {
                 // Wrap primitive value in a fulfilled Promise
                 let promise = super::builtins::promise::create_fulfilled_promise(
                     interp,
-                    &self.register_guard,
+                    &promise_guard,
                     intermediate_value,
                 );
                 JsValue::Object(promise)
@@ -1678,11 +1679,8 @@ impl BytecodeVM {
             intermediate_value
         };
 
-        // Store return value in the designated register
-        // Guard it with the restored frame's guard
-        if let JsValue::Object(obj) = &final_value {
-            self.register_guard.guard(obj.cheap_clone());
-        }
+        // Store return value in the designated register (set_reg roots it in the restored
+        // frame's guard for as long as the register holds it)
         self.set_reg(frame.return_register, final_value);
     }
 
@@ -1824,14 +1822,15 @@ impl BytecodeVM {
             // For async frames: convert error to rejected Promise instead of propagating
             if is_async_frame {
                 let error_guarded = self.error_to_guarded(interp, wrapped_error);
+                // Rooted here until it sits in its register (set_reg roots what a register holds)
+                let promise_guard = interp.heap.create_guard();
                 let promise = super::builtins::promise::create_rejected_promise(
                     interp,
-                    &self.register_guard,
+                    &promise_guard,
                     error_guarded.value,
                 );
                 // error_guarded.guard keeps the reason alive until promise is created
                 drop(error_guarded.guard);
-                self.register_guard.guard(promise.cheap_clone());
                 self.set_reg(return_register, JsValue::Object(promise));
                 return Ok(());
             }
@@ -2081,10 +2080,7 @@ impl BytecodeVM {
     /// Set the resume value for await resumption
     /// This stores the resolved promise value in the specified register
     pub fn set_resume_value(&mut self, register: Register, value: JsValue) {
-        // Guard the value if it's an object
-        if let JsValue::Object(ref obj) = value {
-            self.register_guard.guard(obj.cheap_clone());
-        }
+        // set_reg roots the value for as long as the register holds it
         self.set_reg(register, value);
     }
 
@@ -3672,7 +3668,7 @@ impl BytecodeVM {
                 // Create a keys array iterator
                 let guard = interp.heap.create_guard();
                 let iter = interp.create_object(&guard);
-                let keys_arr = interp.create_array_from(&self.register_guard, keys);
+                let keys_arr = interp.create_array_from(&guard, keys);
                 iter.borrow_mut().set_property(
                     PropertyKey::String(interp.intern("__keys__")),
                     JsValue::Object(keys_arr),
